@@ -27,6 +27,9 @@ pub enum DOp {
     CloneInjector { sel: u8 },
     DropInjector { sel: u8, on_thread: bool },
     Reparse { sel: u8 },
+    /// raw vector only: two writer threads are made to allocate the same bucket at the same time
+    /// (both parked right before the bucket CAS, then released together)
+    Race { extra: u8 },
 }
 
 #[derive(Clone, Debug, Serialize, Deserialize, Hash)]
@@ -143,6 +146,66 @@ fn do_extend(extend: &dyn Fn(Lying, &dyn Fn(&Tracked, &mut [Utf32String])), stre
     }
 }
 
+/// force two writers into get_or_alloc for the same (not yet allocated) bucket at the same time
+fn race(v: &Arc<RawVec<Tracked>>, cols: usize, extra: u8, st: &mut St) {
+    use nucleo::verif::site;
+    // bucket k covers [32*(2^k-1), 32*(2^(k+1)-1)); the push of index start+len-len/8 allocates bucket k+1 eagerly
+    let c = v.count();
+    let mut k = 0u32;
+    let (start, len) = loop {
+        let start = 32 * ((1u32 << k) - 1);
+        let len = 32u32 << k;
+        if c <= start + len - len / 8 {
+            break (start, len);
+        }
+        k += 1;
+        if k > 6 {
+            return;
+        }
+    };
+    let eager = start + len - len / 8;
+    while v.count() < eager {
+        do_push(&|t, f| v.push(t, f), 0, cols, 7, false, st);
+    }
+    if v.count() != eager {
+        return;
+    }
+    let next_len = (len as u64) << 1;
+    gate::close_gate(site::BOXCAR_CAS, next_len);
+    let mk = |n: usize, st: &mut St| -> Vec<(Tracked, Vec<String>)> {
+        (0..n)
+            .map(|j| {
+                let t = Tracked::new(0);
+                st.created.push(t.id);
+                st.published.push((t.id, 0));
+                (t, (0..cols).map(|c| band_text(j as u16 * 5 + c as u16)).collect())
+            })
+            .collect()
+    };
+    let a_items = mk(1, st);
+    let b_items = mk((len / 8) as usize + 4 + extra as usize % 20, st);
+    let va = v.clone();
+    let ha = std::thread::spawn(move || {
+        for (t, texts) in a_items {
+            va.push(t, |_, cs| fill(&texts, cs));
+        }
+    });
+    let a_parked = gate::wait_parked_n(site::BOXCAR_CAS, next_len, 1, Duration::from_millis(120));
+    let vb = v.clone();
+    let hb = std::thread::spawn(move || {
+        let texts: std::collections::HashMap<u64, Vec<String>> = b_items.iter().map(|(t, x)| (t.id, x.clone())).collect();
+        let its: Vec<Tracked> = b_items.into_iter().map(|(t, _)| t).collect();
+        vb.extend(its.into_iter(), |t, cs| fill(&texts[&t.id], cs));
+    });
+    let both = a_parked && gate::wait_parked_n(site::BOXCAR_CAS, next_len, 2, Duration::from_millis(400));
+    gate::open_gate(site::BOXCAR_CAS, next_len);
+    let _ = ha.join();
+    let _ = hb.join();
+    if both {
+        st.labels.push("two-writers-allocating-one-bucket");
+    }
+}
+
 fn check_alive(get: &dyn Fn(u32) -> Option<(u64, bool, usize)>, count: u32, st: &mut St, when: &str) {
     for i in 0..count.min(20000) {
         if let Some((id, intact, ncols)) = get(i) {
@@ -155,6 +218,16 @@ fn check_alive(get: &dyn Fn(u32) -> Option<(u64, bool, usize)>, count: u32, st: 
         }
     }
 }
+
+fn fixed_templates() -> Vec<DropCase> {
+        vec![
+            // lying extend that skips whole buckets, then a push that lands far away
+            DropCase { nucleo: false, capacity: 32, columns: 1, threads: 1, ops: vec![DOp::Extend { n: 3, lie: 6000, panic_at: 200, text: 1 }, DOp::Push { text: 2, panic: false }, DOp::Get { sel: 0 }], drop_on_thread: false },
+            DropCase { nucleo: true, capacity: 0, columns: 2, threads: 2, ops: vec![DOp::Push { text: 1, panic: false }, DOp::Extend { n: 2, lie: 5000, panic_at: 200, text: 1 }, DOp::Push { text: 2, panic: false }, DOp::Tick, DOp::Restart { clear: false }, DOp::Tick], drop_on_thread: true },
+            DropCase { nucleo: false, capacity: 0, columns: 2, threads: 1, ops: vec![DOp::Extend { n: 40, lie: 0, panic_at: 35, text: 1 }, DOp::Push { text: 2, panic: true }, DOp::Extend { n: 5, lie: -2, panic_at: 200, text: 3 }, DOp::Extend { n: 2, lie: -2, panic_at: 200, text: 3 }], drop_on_thread: true },
+            DropCase { nucleo: true, capacity: 0, columns: 1, threads: 1, ops: vec![DOp::Push { text: 1, panic: false }, DOp::NewInjector, DOp::Tick, DOp::Restart { clear: true }, DOp::NewInjector, DOp::Push { text: 1, panic: false }, DOp::Tick, DOp::DropInjector { sel: 0, on_thread: true }, DOp::Restart { clear: false }, DOp::Restart { clear: false }, DOp::Tick], drop_on_thread: false },
+        ]
+    }
 
 impl Check for C11 {
     type Case = DropCase;
@@ -180,13 +253,13 @@ impl Check for C11 {
         }
     }
     fn templates(&self, _tier: Tier) -> Vec<DropCase> {
-        vec![
-            // lying extend that skips whole buckets, then a push that lands far away
-            DropCase { nucleo: false, capacity: 32, columns: 1, threads: 1, ops: vec![DOp::Extend { n: 3, lie: 6000, panic_at: 200, text: 1 }, DOp::Push { text: 2, panic: false }, DOp::Get { sel: 0 }], drop_on_thread: false },
-            DropCase { nucleo: true, capacity: 0, columns: 2, threads: 2, ops: vec![DOp::Push { text: 1, panic: false }, DOp::Extend { n: 2, lie: 5000, panic_at: 200, text: 1 }, DOp::Push { text: 2, panic: false }, DOp::Tick, DOp::Restart { clear: false }, DOp::Tick], drop_on_thread: true },
-            DropCase { nucleo: false, capacity: 0, columns: 2, threads: 1, ops: vec![DOp::Extend { n: 40, lie: 0, panic_at: 35, text: 1 }, DOp::Push { text: 2, panic: true }, DOp::Extend { n: 5, lie: -2, panic_at: 200, text: 3 }, DOp::Extend { n: 2, lie: -2, panic_at: 200, text: 3 }], drop_on_thread: true },
-            DropCase { nucleo: true, capacity: 0, columns: 1, threads: 1, ops: vec![DOp::Push { text: 1, panic: false }, DOp::NewInjector, DOp::Tick, DOp::Restart { clear: true }, DOp::NewInjector, DOp::Push { text: 1, panic: false }, DOp::Tick, DOp::DropInjector { sel: 0, on_thread: true }, DOp::Restart { clear: false }, DOp::Restart { clear: false }, DOp::Tick], drop_on_thread: false },
-        ]
+        let mut v = fixed_templates();
+        for capacity in [0u16, 33, 100] {
+            for pre in [0u8, 20, 40] {
+                v.push(DropCase { nucleo: false, capacity, columns: 1, threads: 1, ops: vec![DOp::Extend { n: pre, lie: 0, panic_at: 200, text: 3 }, DOp::Race { extra: 3 }, DOp::Push { text: 1, panic: false }, DOp::Race { extra: 0 }], drop_on_thread: false });
+            }
+        }
+        v
     }
     fn strategy(&self, _tier: Tier) -> BoxedStrategy<DropCase> {
         let op = prop_oneof![
@@ -199,6 +272,7 @@ impl Check for C11 {
             5 => any::<u8>().prop_map(|sel| DOp::CloneInjector { sel }),
             8 => (any::<u8>(), any::<bool>()).prop_map(|(sel, on_thread)| DOp::DropInjector { sel, on_thread }),
             5 => any::<u8>().prop_map(|sel| DOp::Reparse { sel }),
+            6 => any::<u8>().prop_map(|extra| DOp::Race { extra }),
         ];
         (any::<bool>(), proptest::sample::select(vec![0u16, 1, 32, 33, 100]), 1u8..=3, 1u8..=3, proptest::collection::vec(op, 1..=18), any::<bool>()).prop_map(|(nucleo, capacity, columns, threads, ops, drop_on_thread)| DropCase { nucleo, capacity, columns, threads, ops, drop_on_thread }).boxed()
     }
@@ -212,12 +286,13 @@ impl Check for C11 {
         let mut beyond_first_bucket = false;
         let mut had_restart = false;
         if !c.nucleo {
-            let v: RawVec<Tracked> = RawVec::with_capacity(c.capacity as u32, cols as u32);
+            let v: Arc<RawVec<Tracked>> = Arc::new(RawVec::with_capacity(c.capacity as u32, cols as u32));
             for (k, op) in c.ops.iter().enumerate() {
                 let when = format!("after op #{k} {op:?}");
                 match op {
                     DOp::Push { text, panic } => do_push(&|t, f| v.push(t, f), 0, cols, *text, *panic, &mut st),
                     DOp::Extend { n, lie, panic_at, text } => do_extend(&|it, f| v.extend(it, f), 0, cols, *n as usize, *lie, *panic_at as usize, *text, &mut st),
+                    DOp::Race { extra } => race(&v, cols, *extra, &mut st),
                     _ => {}
                 }
                 check_alive(&|i| v.get(i).map(|it| (it.data.id, it.data.intact(), it.matcher_columns.len())), v.count(), &mut st, &when);
@@ -228,6 +303,13 @@ impl Check for C11 {
                     beyond_first_bucket = true;
                 }
             }
+            let v = match Arc::try_unwrap(v) {
+                Ok(v) => v,
+                Err(_) => {
+                    st.fails.push(("harness".into(), "raw vector still shared at the end".into()));
+                    return out;
+                }
+            };
             if c.drop_on_thread {
                 std::thread::spawn(move || drop(v)).join().ok();
             } else if let Err(p) = guarded(move || drop(v)) {
@@ -251,7 +333,7 @@ impl Check for C11 {
                             do_extend(&|it, f| inj.extend(it, f), *s, cols, *n as usize, *lie, *panic_at as usize, *text, &mut st)
                         }
                     }
-                    DOp::Get { .. } => {}
+                    DOp::Get { .. } | DOp::Race { .. } => {}
                     DOp::Tick => {
                         let _ = nuc.tick(10);
                     }
